@@ -2,7 +2,7 @@
 import json
 from core import hx
 
-KEYS = ['a', 'b', 'name', 'id', 'created', 'k.dot', 'sp ace', 'st*r', 'q?m', 'h#sh', 'p|pe', 'ü', 'nested', 'list', 'z']
+KEYS = ['a', 'b', 'name', 'id', 'created', 'k.dot', 'sp ace', 'st*r', 'q?m', 'h#sh', 'p|pe', 'ü', 'nested', 'list', 'z', 'list[0]', 'nested[name]']
 
 
 def gjson_key(k):
